@@ -58,7 +58,7 @@ def run_case(i, tier, seed):
         kw2 = dict(leader_kw)
         kw2["designator"] = gen.DESIGNATORS[(i // 2 + 1) % 4]
         rounds.append(gen.rich_product(rng, [seed, i, 1], level=level, n_images=1, scans=[None], max_lines=2, max_pixels=2,
-                                       classes=classes, leader_kw=kw2, pols=[pol]))
+                                       classes=classes, leader_kw=kw2, pols=[pol], scene=info["names"]["scene"]))
         assert sorted(rounds[1][0]) == sorted(files), "replacement product must reuse the file names"
     for r, (files_r, info_r) in enumerate(rounds):
         url = synth.install(files_r, root, kind)
